@@ -11,8 +11,8 @@ import schemacomp_common as sc
 PROBES = [sc.PROBE]
 
 MANIFEST = dict(
-    text='SchemaComp.tla builds FIX schemas by construction actions (DeclField(type, enumerated values?), AddMessage(admin?), AddComponent, PutField, UseComponent, AddGroup, NestGroup, ReuseCountField(same | other flags | other order | other members | other nested group), Finish) on a fixed skeleton (standard header/trailer, seven session messages); the state is the meaning of the schema. TLC enumerates two small universes exhaustively (groups nested to depth 3 and reused across two messages; components holding groups and used inside groups) and simulates the full universe (10 fields over every supported type with and without enumerated values, 3 messages incl. one admin, 2 components, 4 count fields), checks on every completed schema ValidSchema, OwnTraits and DistinctDefsDistinctTraits for the ideal group-table design and exports the schemas. Each chosen schema is rendered as FIX XML, compiled by the freshly built f8c, the generated C++ is compiled and linked with probe_meta; TLC validates (i) a dump of the generated metadata (field numbers, names, enumerated values; msgtypes, names, admin flags; per container - header, trailer, message, every repeating group at every level - members, types, mandatory and group flags, order by position) against the abstract schema state (T_SchemaComp) and (ii) encode/decode/re-encode round trips of messages of each schema (mandatory-only, all-optional, random subsets, deepest nesting; T_Codec with facts read from the XML).',
-    note='Verdicts come from the two TLA+ monitors only. Generated code is compiled uninstrumented at -O0 (runtime and probe are ASan/UBSan). Readings adopted: unused declared fields may be absent; mandatory flags of 8/9/35/10 and of members of a group inside an optional component are not judged; position values are judged by the order they induce; TZTIMEONLY/TZTIMESTAMP (no parser/printer in the runtime) and LENGTH/DATA pairs (C06) are outside the generated family. Quick tier reuses cached TLC results of an unchanged design spec. Trusts TLC, the XML renderer (40 lines), lib/schema.py, probe_meta/probe_codec (move data only), g++.',
+    text='SchemaComp.tla builds FIX schemas by construction actions (DeclField(type, enumerated values?), DeclPair/PutPair (LENGTH + DATA), AddMessage(admin?), AddComponent, PutField, UseComponent, AddGroup, NestGroup, ReuseCountField(same | other flags | other order | other members | other nested group), Finish) on a fixed skeleton (standard header/trailer, seven session messages); the state is the meaning of the schema. TLC enumerates two small universes exhaustively (groups nested to depth 3 and reused across two messages; components holding groups and used inside groups) and simulates the full universe (10 fields over every supported type with and without enumerated values, 3 messages incl. one admin, 2 components, 4 count fields, one LENGTH/DATA pair), checks on every completed schema ValidSchema, OwnTraits and DistinctDefsDistinctTraits for the ideal group-table design and exports the schemas. Each chosen schema is rendered as FIX XML, compiled by the freshly built f8c, the generated C++ is compiled and linked with probe_meta; TLC validates (i) a dump of the generated metadata (field numbers, names, enumerated values; msgtypes, names, admin flags; per container - header, trailer, message, every repeating group at every level - members, types, mandatory and group flags, order by position) against the abstract schema state (T_SchemaComp) and (ii) messages of each schema (mandatory-only, all-optional, random subsets, deepest nesting): encode/decode/re-encode round trips and the wire well-formedness of every encoding (the C01 and C02 monitors of T_Codec with facts read from the XML).',
+    note='Verdicts come from the two TLA+ monitors only. Generated code is compiled uninstrumented at -O0 (runtime and probe are ASan/UBSan). Readings adopted: unused declared fields may be absent; mandatory flags of 8/9/35/10 and of members of a group inside an optional component are not judged; position values are judged by the order they induce; TZTIMEONLY/TZTIMESTAMP (no parser/printer in the runtime) are outside the generated family; LENGTH/DATA pairs are placed at message level only (pairs inside groups are a C06 finding). Quick tier reuses cached TLC results of an unchanged design spec. Trusts TLC, the XML renderer (40 lines), lib/schema.py, probe_meta/probe_codec (move data only), g++.',
     tech='TLA+ schema-construction spec + TLC exhaustive check / simulation and schema export; real f8c + C++ compiler per schema; TLC trace validation of the metadata dump and of codec round trips',
     ref='5.4, 6 C13')
 
@@ -85,6 +85,6 @@ def run(ctx):
     ctx.trusted = ["TLC", "XML renderer in lib/schemacomp_common.py", "lib/schema.py (XML reader)", "probe_meta / probe_codec (move data only)",
                    "g++", "tokenizer and SHA-256 digest in lib/codec_common.py", "ASan/UBSan (runtime and probe; generated code uninstrumented)"]
     ctx.assumptions = ["a tag occurs once per message (header, body with all its groups, trailer); a group element starts with a plain field",
-                       "components do not reference components; LENGTH/DATA pairs are not generated (C06 covers them on the stock schemas)",
+                       "components do not reference components; a LENGTH field is followed by its DATA field (number + 1) at message level",
                        "field values as in C01 (negative integers, dates after 2038 and integers near INT_MAX are left to C01's canaries)",
                        "TZTIMEONLY/TZTIMESTAMP are not among the supported types (the runtime neither parses nor prints them)"]
